@@ -193,7 +193,7 @@ def rank_schemes(n, perm, scheme):
     """ranks per field index so that the visiting order is perm (a tuple of field indexes)"""
     ranks = [None] * n
     if scheme == 0:
-        vals = [-7, 0, 5, 300][:n]
+        vals = [-7, 0, 5, 300, 1000, 2000][:n]
         for k, fi in enumerate(perm):
             ranks[fi] = vals[k]
     elif scheme == 1:
@@ -460,9 +460,18 @@ def c07(tier, seed):
                 fs = []
                 for j in range(m):
                     pos += 1
-                    a = "m" if (not copy and (pos + ci) % 3 == 0) else "n"
-                    fs.append(clone_field(NAMES[j] if kind == "named" else None, a, form + pos, pos, generics, (j + vi) % 3))
+                    # enums accept a custom method together with Copy (clone is then field-wise)
+                    a = "m" if ((pos + ci) % 3 == 0 and (not copy or ci % 2 == 0)) else "n"
+                    f = clone_field(NAMES[j] if kind == "named" else None, a, form + pos, pos, generics, (j + vi) % 3)
+                    fs.append(f)
                 variants.append(Variant("V%d" % vi, kind, fs))
+            if copy and any(f.s("clone", "method") for v in variants for f in v.fields):
+                # Copy + method: educe bounds type parameters by Clone only, so `impl Copy` needs concrete Copy field types
+                for v in variants:
+                    for f in v.fields:
+                        if f.ty.startswith("T"):
+                            f.ty = ["u16", "bool", "u32"][f.idx % 3]
+                generics = []
             out.append(clone_program(c.pid(), "enum", "E", variants, generics, copy, "enum %s copy=%s" % ("/".join(combo), copy), form))
     return out
 
@@ -840,6 +849,25 @@ def c10(tier, seed):
                         attrs[i].append(sp); marks[i][T] = m
                 variants.append(Variant("V%d" % vi, kind, [Field(NAMES[i] if kind == "named" else None, tys[i], attrs=attrs[i], into={"marks": marks[i]}) for i in range(n)]))
             out.append(into_program(c.pid(), "enum", variants, tgts, "enum %s targets=%s" % (combo, tgts), form))
+    # a custom method on a field whose type already is the target (the method must still run), enums and structs
+    for kindp in ("enum", "struct"):
+        for vi_shapes in ([("tuple", ["u16"])], [("named", ["u16", "u8"]), ("tuple", ["u8", "u16"])], [("tuple", ["u16", "u16"]), ("named", ["u16"]), ("tuple", ["u8", "u16", "u8"])]):
+            if kindp == "struct" and len(vi_shapes) > 1:
+                continue
+            for sp in range(2):
+                form += 1
+                variants = []
+                for vi, (kind, tys) in enumerate(vi_shapes):
+                    at = [i for i, t in enumerate(tys) if t == "u16"][-1 if vi % 2 else 0]
+                    fs = []
+                    for i, t in enumerate(tys):
+                        if i == at:
+                            spm, m = into_mark("u16", "u16", True, form + sp)
+                            fs.append(Field(NAMES[i] if kind == "named" else None, t, attrs=[spm], into={"marks": {"u16": m}}))
+                        else:
+                            fs.append(Field(NAMES[i] if kind == "named" else None, t, into={"marks": {}}))
+                    variants.append(Variant("V%d" % vi if kindp == "enum" else None, kind, fs))
+                out.append(into_program(c.pid(), kindp, variants, ["u16"], "%s method on a field of the target type %s" % (kindp, vi_shapes), form))
     return out
 
 
@@ -1128,6 +1156,12 @@ UNIONS = [
     ([("a", "i32"), ("b", "[i8; 4]"), ("c", "u32")], 4, []),
     ([("a", "[u8; 16]"), ("b", "u128")], 16, []),
     ([("a", "[u8; 2]"), ("b", "[u8; 2]")], 2, []),
+    # size_of::<Self>() exceeds the widest field (alignment tail): the tail bytes count too
+    ([("a", "[u8; 3]"), ("b", "u16")], 4, []),
+    ([("a", "[u8; 5]"), ("b", "u32")], 8, []),
+    ([("a", "[T0; 3]"), ("b", "T1")], 4, ["T0: Copy", "T1: Copy"]),
+    ([("a", "u8")], 8, [], "align(8)"),
+    ([("a", "u16"), ("b", "u8")], 4, [], "align(4)"),
 ]
 
 
@@ -1137,13 +1171,16 @@ def c20(tier, seed):
     form = 0
     trait_sets = [["PartialEq(unsafe)"], ["Hash(unsafe)"], ["Clone", "Copy"], ["PartialEq(unsafe)", "Eq", "Hash(unsafe)", "Clone", "Copy"],
                   ["Hash(unsafe)", "PartialEq(unsafe)"]]
-    for fields, size, generics in UNIONS:
+    for urow in UNIONS:
+        fields, size, generics = urow[:3]
+        urepr = urow[3] if len(urow) > 3 else None
         for ts in trait_sets if tier != "quick" else trait_sets[:4]:
             form += 1
             fs = [Field(n, t) for n, t in fields]
             focus = {t.split("(")[0] for t in ts} & {"PartialEq", "Hash", "Clone"}
-            P = Program(c.pid(), "union", "U", [Variant(None, "named", fs)], ts, generics=generics, inst={"T0": "u32"}, focus=focus,
-                        note="union %s size=%d traits=%s" % (fields, size, ts), union={"size": size})
+            inst = {"T0": "u32"} if len(generics) == 1 else {"T0": "u8", "T1": "u16"}
+            P = Program(c.pid(), "union", "U", [Variant(None, "named", fs)], ts, generics=generics, inst=inst, focus=focus, repr_=urepr,
+                        note="union %s size=%d repr=%s traits=%s" % (fields, size, urepr, ts), union={"size": size})
             P.tags["mk"] = ("pub fn mk<Z9: Src>(s: &mut Z9) -> TI { let mut b = [0u8; %d]; let mut i = 0; while i < %d { b[i] = s.u8(); i += 1; } "
                             "unsafe { core::mem::transmute_copy::<[u8; %d], TI>(&b) } }" % (size, size, size))
             P.tags["no_verus"] = "unions / raw byte views are outside Verus' subset"
@@ -1392,4 +1429,210 @@ def c15(tier, seed):
         if pi % 5 == 1 and len(traits) > 1:
             P.type_attrs = [[t] for t in traits]
         out.append(P)
+    return out
+
+
+# ---------------------------------------------------------------------------------
+# "wide" members of the quick families: more fields / variants than the exhaustive part
+# (positions >= 3, variant indexes >= 4), fixed and seed-independent
+def _wide_assigns(n, alphabet):
+    """n rotations of the alphabet so that every position sees every letter"""
+    L = len(alphabet)
+    return [tuple(alphabet[(i + r) % L] for i in range(n)) for r in range(L)]
+
+
+def wide(prop):
+    out = []
+    k = [0]
+
+    def pid():
+        k[0] += 1
+        return "pw%03d" % k[0]
+    LONG = ["a", "b", "c", "d", "e", "f", "g"]
+    if prop == "C02":
+        for n in (4, 5, 6):
+            for shape in ("named", "tuple"):
+                for assign in _wide_assigns(n, "nim"):
+                    fields, generics = eq_fields(shape, assign, k[0], "PartialEq", LONG)
+                    out.append(mk_struct(pid(), shape, fields, ["PartialEq"], {"PartialEq"}, generics, note="wide struct %s eq=%s" % (shape, "".join(assign))))
+        for nv in (5, 7):
+            generics, variants = ["T0", "T1"], []
+            for vi in range(nv):
+                kind = ["tuple", "named", "unit"][vi % 3]
+                m = 0 if kind == "unit" else 1 + vi % 4
+                fs = []
+                for j in range(m):
+                    a = "nim"[(vi + j) % 3]
+                    sem = {"ignore": a == "i", "method": EQ_METHODS[j % 2] if a == "m" else None}
+                    sp = spell_field("PartialEq", sem, vi + j)
+                    fs.append(Field(LONG[j] if kind == "named" else None, "u8" if a == "m" else "T%d" % (j % 2), attrs=[sp] if sp else [], eq=sem))
+                variants.append(Variant("V%d" % vi, kind, fs))
+            out.append(Program(pid(), "enum", "E", variants, ["PartialEq"], generics=generics, inst=inst_for(generics), focus={"PartialEq"}, note="wide enum %d variants" % nv))
+    if prop == "C03":
+        for n in (4, 5):
+            for shape in ("named", "tuple"):
+                for ri, assign in enumerate(_wide_assigns(n, "nim")):
+                    for md in ("both", "po"):
+                        carrier = "PartialOrd" if md == "po" else "Ord"
+                        generics = []
+                        perm = list(range(n)); perm = perm[ri + 1:] + perm[:ri + 1]
+                        ranks = rank_schemes(n, tuple(perm), 0) if ri % 2 == 0 else [None] * n
+                        fields = [ord_field(LONG[i] if shape == "named" else None, a, ranks[i] if i < len(ranks) else None, md, carrier, k[0] + i, generics, i)
+                                  for i, a in enumerate(assign)]
+                        if len({f.s("ord", "rank") for f in fields if f.s("ord", "rank") is not None}) != len([f for f in fields if f.s("ord", "rank") is not None]):
+                            continue
+                        out.append(ord_program(pid(), "struct", "S", [Variant(None, shape, fields)], md, generics, k[0], "wide struct %s ord=%s ranks=%s mode=%s" % (shape, "".join(assign), ranks, md)))
+        for nv in (5, 6):
+            for md in ("both", "po"):
+                generics, variants = [], []
+                for vi in range(nv):
+                    kind = ["tuple", "named", "unit"][vi % 3]
+                    m = 0 if kind == "unit" else 1 + vi % 3
+                    fs = []
+                    for j in range(m):
+                        g2 = []
+                        f = ord_field(LONG[j] if kind == "named" else None, "nim"[(vi + j) % 3], None, md, "PartialOrd" if md == "po" else "Ord", vi + j, g2, j)
+                        if g2:
+                            f.ty = "T%d" % (j % 2)
+                            if f.ty not in generics: generics.append(f.ty)
+                        fs.append(f)
+                    variants.append(Variant("V%d" % vi, kind, fs))
+                generics.sort()
+                out.append(ord_program(pid(), "enum", "E", variants, md, generics, nv, "wide enum %d variants mode=%s" % (nv, md)))
+    if prop == "C05":
+        for n in (4, 5):
+            for shape in ("named", "tuple"):
+                for assign in _wide_assigns(n, "nim"):
+                    fields = [hash_field(LONG[i] if shape == "named" else None, a, k[0] + i, i, k[0]) for i, a in enumerate(assign)]
+                    if sum(9 if f.ty == "crate::m::K" else 5 for f in fields) > 28:
+                        for f in fields:
+                            if f.ty in ("crate::m::K", "u32"): f.ty = "u8"
+                    out.append(Program(pid(), "struct", "S", [Variant(None, shape, fields)], ["Hash"], focus={"Hash"}, note="wide struct %s hash=%s" % (shape, "".join(assign))))
+        for nv in (6, 8):
+            variants = []
+            for vi in range(nv):
+                kind = ["tuple", "named", "unit"][vi % 3]
+                m = 0 if kind == "unit" else 1 + vi % 2
+                fs = [hash_field(LONG[j] if kind == "named" else None, "nim"[(vi + j) % 3], vi + j, j, 0) for j in range(m)]
+                variants.append(Variant("V%d" % vi, kind, fs))
+            out.append(Program(pid(), "enum", "E", variants, ["Hash"], focus={"Hash"}, note="wide enum %d variants" % nv))
+    if prop == "C07":
+        for n in (4, 5):
+            for shape in ("named", "tuple"):
+                for assign in _wide_assigns(n, "nm"):
+                    generics = []
+                    fields = [clone_field(LONG[i] if shape == "named" else None, a, k[0] + i, i, generics, i) for i, a in enumerate(assign)]
+                    out.append(clone_program(pid(), "struct", "S", [Variant(None, shape, fields)], generics, False, "wide struct %s clone=%s" % (shape, "".join(assign)), 1))
+        generics, variants = [], []
+        for vi in range(6):
+            kind = ["tuple", "named", "unit"][vi % 3]
+            m = 0 if kind == "unit" else 1 + vi % 3
+            fs = [clone_field(LONG[j] if kind == "named" else None, "nm"[(vi + j) % 2], vi + j, j, generics, j) for j in range(m)]
+            variants.append(Variant("V%d" % vi, kind, fs))
+        out.append(clone_program(pid(), "enum", "E", variants, generics, False, "wide enum 6 variants", 1))
+    if prop == "C06":
+        for n in (4, 5):
+            for shape in ("named", "tuple"):
+                for assign in _wide_assigns(n, "nik" if shape == "named" else "ni"):
+                    generics = ["T%d" % i for i in range(n)]
+                    fields = [dbg_field(LONG[i] if shape == "named" else None, generics[i], a, k[0] + i, shape == "named") for i, a in enumerate(assign)]
+                    out.append(Program(pid(), "struct", "S", [Variant(None, shape, fields)], ["Debug"], generics=generics, inst={g: "u8" for g in generics},
+                                       focus={"Debug"}, note="wide struct %s debug=%s" % (shape, "".join(assign)), debug={"name": "default", "named_field": None}))
+        for tn in ("default", True):
+            generics, variants = ["T0", "T1"], []
+            for vi in range(6):
+                kind = ["tuple", "named", "unit"][vi % 3]
+                m = 0 if kind == "unit" else 1 + vi % 3
+                fs = [dbg_field(LONG[j] if kind == "named" else None, "T%d" % (j % 2), "nik"[(vi + j) % 3] if kind == "named" else "ni"[(vi + j) % 2], vi + j, kind == "named") for j in range(m)]
+                variants.append(Variant("V%d" % vi, kind, fs, debug={"name": True, "named_field": None}))
+            out.append(Program(pid(), "enum", "E", variants, [dbg_type_meta(tn, None, 0) or "Debug"], generics=generics, inst={g: "u8" for g in generics},
+                               focus={"Debug"}, note="wide enum 6 variants name=%s" % tn, debug={"name": tn, "named_field": None}))
+    if prop == "C09":
+        for n in (4, 5):
+            for shape in ("named", "tuple"):
+                for dm, dmm in ((n - 1, 0), (0, n - 1), (n - 2, n - 1), (n - 1, n - 1)):
+                    fs = deref_fields(shape, n, dm, dmm, True, "T0", k[0], LONG)
+                    out.append(Program(pid(), "struct", "S", [Variant(None, shape, fs)], ["Deref", "DerefMut"], generics=["T0"], inst={"T0": "u8"},
+                                       focus={"Deref", "DerefMut"}, note="wide struct %s n=%d deref@%d deref_mut@%d" % (shape, n, dm, dmm)))
+    if prop == "C10":
+        for n in (4, 5):
+            for shape in ("named", "tuple"):
+                for at in (n - 1, n - 2, 0):
+                    tys = ["u8"] * n
+                    fs = []
+                    for i in range(n):
+                        if i == at:
+                            sp, m = into_mark("u16", "u8", at % 2 == 0, k[0])
+                            fs.append(Field(LONG[i] if shape == "named" else None, "u8", attrs=[sp], into={"marks": {"u16": m}}))
+                        else:
+                            fs.append(Field(LONG[i] if shape == "named" else None, "u8", into={"marks": {}}))
+                    out.append(into_program(pid(), "struct", [Variant(None, shape, fs)], ["u16"], "wide struct %s n=%d Into(u16)@%d" % (shape, n, at), 0))
+    return out
+
+
+# ---------------------------------------------------------------------------------
+# attribute placement (C14: one #[educe(A, B)] list vs several attributes, any order): the field-level
+# attribute of the trait under contract next to an entry of another educed trait, in the same list
+# before/after it, or in a separate #[educe(..)] attribute before/after it
+def placements(P, k):
+    import copy
+    out = []
+    if P.kind == "union":
+        return out
+    comp_trait, comp_meta = ("PartialEq", "PartialEq(ignore)") if "Debug" in P.focus else ("Debug", "Debug(ignore)")
+    if any(t.split("(")[0].split(" ")[0] == comp_trait for t in P.traits):
+        return out
+    for mi, mode in enumerate(("same_before", "same_after", "split_before", "split_after")):
+        Q = copy.deepcopy(P)
+        Q.tags.pop("frozen_src", None)
+        Q.pid = "pp%03d_%d" % (k, mi)
+        Q.tags["prop"] = "C14"
+        touched = False
+        for v in Q.variants:
+            for f in v.fields:
+                if not f.attrs:
+                    continue
+                touched = True
+                f.attrs = ([comp_meta] + f.attrs) if mode.endswith("before") else (f.attrs + [comp_meta])
+                if mode.startswith("split"):
+                    f.sem["_split_attrs"] = True
+                else:
+                    f.sem.pop("_split_attrs", None)
+        if not touched:
+            return []
+        Q.traits = ([comp_trait] + Q.traits) if mi % 2 else (Q.traits + [comp_trait])
+        if Q.type_attrs is not None:
+            Q.type_attrs = [[t] for t in Q.traits]
+        Q.note = "C14 placement %s of `%s` | %s" % (mode, comp_meta, P.note)
+        out.append(Q)
+    return out
+
+
+def own_placements(prop, programs, n=3):
+    """a few placement variants of a family's own programs, counted under that property"""
+    ps = [p for p in programs if p.canary_of is None and p.kind != "union" and any(f.attrs for v in p.variants for f in v.fields)]
+    out = []
+    step = max(1, len(ps) // n)
+    for k, P in enumerate(ps[2::step][:n]):
+        for Q in placements(P, 900 + k):
+            Q.tags["prop"] = prop
+            Q.note = Q.note.replace("C14 placement", "placement")
+            out.append(Q)
+    return out
+
+
+def c14_placements(tier):
+    out = []
+    k = 0
+    bases = []
+    for fam in (c02, c03, c05, c07, c08, c09, c10, c06):
+        ps = [p for p in fam("quick", 0) if p.canary_of is None and any(f.attrs for v in p.variants for f in v.fields)]
+        structs = [p for p in ps if p.kind == "struct"]
+        enums = [p for p in ps if p.kind == "enum"]
+        step_s = max(1, len(structs) // (5 if tier == "quick" else 20))
+        step_e = max(1, len(enums) // (3 if tier == "quick" else 12))
+        bases += structs[1::step_s][:5 if tier == "quick" else 20] + enums[1::step_e][:3 if tier == "quick" else 12]
+    for P in bases:
+        k += 1
+        out += placements(P, k)
     return out
